@@ -12,6 +12,7 @@ import (
 	"time"
 
 	"github.com/vicanso/pike/config"
+	"gopkg.in/yaml.v2"
 )
 
 // C19, real-process tier: pike's own main() (built from the tree under test, no instrumentation) in front
@@ -48,22 +49,41 @@ func c19RealProcess(c *Ctx) {
 	st.NOutcomes = int(st.Execs)
 }
 
-// freeAddrs asks the kernel for n loopback ports that are free right now (listen on :0, note, close).
+// writeYAML saves a configuration the way pike's file client does (truncate + write of the YAML document), without
+// starting that client's file watcher inside the harness process.
+func writeYAML(path string, cfg *config.PikeConfig) error {
+	b, err := yaml.Marshal(cfg)
+	if err != nil {
+		return err
+	}
+	return os.WriteFile(path, b, 0o600)
+}
+
+// freeAddrs returns n loopback addresses that can be bound right now, taken from a per-process block BELOW the
+// kernel's ephemeral range (21000-29999): a port released by one of the harness's servers must never be handed by
+// the kernel to some other listener on ":0" while a real pike still routes to it.
 func freeAddrs(n int) []string {
-	var out []string
-	var ls []net.Listener
-	for i := 0; i < n; i++ {
-		l, err := net.Listen("tcp", "127.0.0.1:0")
-		if err != nil {
-			break
+	start := os.Getpid() % 1100
+	for k := 0; k < 1100; k++ {
+		base := 21000 + ((start+k)%1100)*8
+		var out []string
+		var ls []net.Listener
+		for i := 0; i < n && i < 8; i++ {
+			l, err := net.Listen("tcp", fmt.Sprintf("127.0.0.1:%d", base+i))
+			if err != nil {
+				break
+			}
+			ls = append(ls, l)
+			out = append(out, l.Addr().String())
 		}
-		ls = append(ls, l)
-		out = append(out, l.Addr().String())
+		for _, l := range ls {
+			l.Close()
+		}
+		if len(out) == n {
+			return out
+		}
 	}
-	for _, l := range ls {
-		l.Close()
-	}
-	return out
+	return nil
 }
 
 func c19RealRun(bin string, base int, alarm string) (string, string) {
@@ -110,12 +130,7 @@ func c19RealRun(bin string, base int, alarm string) (string, string) {
 		Servers:   []config.ServerConfig{{Addr: pikeAddr, Locations: []string{"l"}, Cache: "c1"}},
 	}
 	cfgFile := filepath.Join(dir, "pike.yml")
-	if err := config.InitDefaultClient(cfgFile); err != nil {
-		return "harness-config-client", err.Error()
-	}
-	err := config.Write(cfg)
-	config.Close()
-	if err != nil {
+	if err := writeYAML(cfgFile, cfg); err != nil {
 		return "harness-config-write", err.Error()
 	}
 	logf, _ := os.Create(filepath.Join(dir, "pike.out"))
@@ -225,13 +240,7 @@ func c16RealProcess(c *Ctx) {
 		return cfg
 	}
 	cfgFile := filepath.Join(dir, "pike.yml")
-	save := func(cfg *config.PikeConfig) error {
-		if err := config.InitDefaultClient(cfgFile); err != nil {
-			return err
-		}
-		defer config.Close()
-		return config.Write(cfg)
-	}
+	save := func(cfg *config.PikeConfig) error { return writeYAML(cfgFile, cfg) }
 	if err := save(mk(0, 1)); err != nil {
 		c.Violation("real-process-config-file", "harness-config-write", err.Error(), nil, nil, nil)
 		return
